@@ -34,7 +34,8 @@ META = dict(
          "plain_parse_eq_sem: (exists fuel, parse = ok e ts) <-> Sem derives (e, ts), (exists fuel, parse fails) <-> Sem "
          "derives 'no match', and plain_parse_returns_iff: the algorithm returns for some fuel iff the reading assigns a "
          "result at all (non-returning runs = tasks the reading leaves undefined: a repetition body that does not advance, a "
-         "Forward recursing without consuming); plainTable_iff "
+         "Forward recursing without consuming); parse_string_iff_sem / parse_string_all_iff_sem (the same at the transcribed "
+         "entry point parse_string, without and with parse_all); plainTable_iff "
          "(the driver's executable test is exactly the hypothesis). The driver reports per compared grammar whether the "
          "hypothesis holds (evidence: plain_fragment; about 3/4 of the generated grammars). Plain = Literal, Empty, NoMatch, "
          "StringEnd, Word/CharsNotIn/Keyword/CaselessLiteral/LineEnd/WordStart/WordEnd as given terminal matchers, And, "
@@ -69,7 +70,8 @@ THEOREMS = [
     # the closed theorem for the plain fragment (Props/C01Sem.lean over the declarative reading Props/C01SemDef.lean)
     "PP.Parse.plain_parse_sound", "PP.Parse.sem_deterministic", "PP.Parse.plain_parse_iff_sem", "PP.Parse.plain_parse_stable",
     "PP.Parse.plain_parse_ok_excludes_fail", "PP.Parse.plainTable_iff", "PP.Parse.plain_parse_complete",
-    "PP.Parse.plain_parse_eq_sem", "PP.Parse.plain_parse_returns_iff",
+    "PP.Parse.plain_parse_eq_sem", "PP.Parse.plain_parse_returns_iff", "PP.Parse.parse_string_iff_sem",
+    "PP.Parse.parse_string_all_iff_sem",
 ]
 
 # default whitespace, no actions, no ignorables, no '-', no classes whose reading the reference does not implement
